@@ -12,10 +12,13 @@ package main
 import (
 	"encoding/json"
 	"os"
+	"os/exec"
 	"path/filepath"
 	"sort"
 	"strconv"
+	"strings"
 	"sync"
+	"sync/atomic"
 	"time"
 
 	"github.com/markusressel/fan2go/internal/configuration"
@@ -26,6 +29,11 @@ type parinitIn struct {
 	Par   bool             `json:"par"`        // false: the file says `runFanInitializationInParallel: false`
 	ParAbsent bool         `json:"par_absent"` // par = true only: the option is absent from the file (default true) instead of an explicit true
 	Scale int              `json:"scale"` // real time = configured time / scale
+	// Init: every fan's RunInitializationSequence is called directly (what `fan init` does: delete both entries, run the
+	// sequence on a fresh controller), all released at the same instant by a spin barrier (relative start delay 0).
+	// Fresh: the case runs in a process of its own (the very first analysis of a process).
+	Init  bool `json:"init"`
+	Fresh bool `json:"fresh"`
 	Frd   *int             `json:"fan_response_delay"` // fanResponseDelay (default 1)
 	Fans  []startupFanSpec `json:"fans"`
 	Db    []startupDbEntry `json:"db"`
@@ -175,6 +183,9 @@ func parinitRun(ctx *Ctx, in parinitIn) parinitObs {
 			env.preload(d, ent)
 		}
 	}
+	if in.Init {
+		return parinitRunInit(env, in)
+	}
 	procs := make([]*startupProc, len(in.Fans))
 	var wg sync.WaitGroup
 	for i, f := range in.Fans {
@@ -204,11 +215,41 @@ func parinitRun(ctx *Ctx, in parinitIn) parinitObs {
 	for _, p := range procs {
 		p.stop()
 	}
+	return parinitObserve(env, in, nil)
+}
+
+// parinitRunInit: simultaneous direct initialisation sequences (see parinitIn.Init)
+func parinitRunInit(env *startupEnv, in parinitIn) parinitObs {
+	n := int32(len(in.Fans))
+	var arrived int32
+	ready := func() {
+		atomic.AddInt32(&arrived, 1)
+		for atomic.LoadInt32(&arrived) < n {
+			// spin: all sequences start within microseconds of each other
+		}
+	}
+	errs := make([]error, len(in.Fans))
+	var wg sync.WaitGroup
+	for i, f := range in.Fans {
+		wg.Add(1)
+		go func(i int, f startupFanSpec) {
+			defer wg.Done()
+			errs[i] = env.runInitDirect(env.devs[f.Id], ready)
+		}(i, f)
+	}
+	wg.Wait()
+	return parinitObserve(env, in, errs)
+}
+
+func parinitObserve(env *startupEnv, in parinitIn, errs []error) parinitObs {
 	var obs parinitObs
 	type iv struct{ a, b int }
 	var ivs []iv
-	for _, f := range in.Fans {
+	for i, f := range in.Fans {
 		acts, _ := env.classify(f.Id, 0)
+		if errs != nil && errs[i] != nil {
+			acts = append(acts, "Err")
+		}
 		fo := parinitFanObs{Id: f.Id, Acts: acts}
 		fo.HasIv, fo.First, fo.Last = env.parinitInterval(f.Id)
 		if fo.HasIv {
@@ -247,7 +288,7 @@ func parinitCoq(in parinitIn, obs parinitObs) string {
 			faulty = append(faulty, f.Id)
 		}
 	}
-	return cRec("mkCase", cBool(in.Par), cList(fl), cList(db), cZList(faulty), cList(acts), cList(ivs))
+	return cRec("mkCase", cBool(in.Par), cList(fl), cList(db), cBool(in.Init), cZList(faulty), cList(acts), cList(ivs))
 }
 
 func parinitQuant(q int) [][2]int {
@@ -351,6 +392,37 @@ func parinitGen(rng *Rng, par bool, variant int) (parinitIn, []string) {
 func init() {
 	drivers["parinit"] = func(ctx *Ctx) {
 		emit := func(in parinitIn, tags ...string) {
+			if in.Fresh && ctx.Params["child"] == "" {
+				// the case needs a process in which no fan has been analysed yet: run it in a child of our own binary
+				parinitCaseNo++
+				dir := filepath.Join(ctx.WorkDir, "fresh"+strconv.Itoa(parinitCaseNo))
+				if err := os.MkdirAll(dir, 0755); err != nil {
+					panic(err)
+				}
+				defer os.RemoveAll(dir)
+				raw, _ := json.Marshal(in)
+				inFile, outFile := filepath.Join(dir, "in.jsonl"), filepath.Join(dir, "out.jsonl")
+				_ = os.WriteFile(inFile, append(raw, '\n'), 0644)
+				exe, err := os.Executable()
+				if err != nil {
+					panic(err)
+				}
+				cmd := exec.Command(exe, "parinit", "--seed", strconv.FormatUint(ctx.Seed, 10), "--tier", ctx.Tier,
+					"--replay", inFile, "--out", outFile, "--work", filepath.Join(dir, "w"), "child=1")
+				if out, err := cmd.CombinedOutput(); err != nil {
+					panic("parinit child failed: " + err.Error() + "\n" + string(out))
+				}
+				data, err := os.ReadFile(outFile)
+				if err != nil {
+					panic(err)
+				}
+				var rec Record
+				if err := json.Unmarshal([]byte(strings.SplitN(string(data), "\n", 2)[0]), &rec); err != nil {
+					panic("parinit child output: " + err.Error())
+				}
+				ctx.Emit(Record{In: in, Obs: rec.Obs, Coq: rec.Coq, Tags: append(tags, rec.Tags...), NonTrv: rec.NonTrv})
+				return
+			}
 			obs := parinitRun(ctx, in)
 			if obs.Overlap {
 				tags = append(tags, "overlap-observed")
@@ -368,6 +440,10 @@ func init() {
 		for _, raw := range append(ctx.Corpus, ctx.Replay...) {
 			var in parinitIn
 			if json.Unmarshal(raw, &in) == nil && len(in.Fans) > 0 {
+				if ctx.Params["child"] != "" {
+					emit(in)
+					continue
+				}
 				emit(in, "corpus")
 			}
 		}
@@ -378,6 +454,27 @@ func init() {
 		n := ctx.Param("n", 24)
 		if !ctx.Quick() {
 			n = ctx.Param("n", 300)
+		}
+		// simultaneous very-first analyses: 3..4 fans released by a spin barrier, each trial in a fresh process
+		nf := ctx.Param("nfresh", 5)
+		if !ctx.Quick() {
+			nf = ctx.Param("nfresh", 40)
+		}
+		for i := 0; i < nf; i++ {
+			in := parinitIn{Par: i%5 == 4, Scale: 200, Init: true, Fresh: true}
+			k := 3 + i%2
+			for id := 1; id <= k; id++ {
+				f := startupFanSpec{Id: id, Kind: "hwmon", PwmReadable: true, Rpm: i%2 == 0,
+					Dev: parinitQuant(rng.Pick([]int{51, 64, 85})), SettleMs: rng.Pick([]int{0, 1500})}
+				in.Fans = append(in.Fans, f)
+			}
+			tg := []string{"fresh-process", "simultaneous-init", "fans=" + itoa(k)}
+			if in.Par {
+				tg = append(tg, "parallel", "option-true")
+			} else {
+				tg = append(tg, "sequential")
+			}
+			emit(in, tg...)
 		}
 		special := 0
 		for i := 0; i < n; i++ {
